@@ -52,6 +52,12 @@ struct World {
          std::u8string s = u8"n"; s += char8_t('a' + i);
          names.push_back(&lex.get_identifier(s));
       }
+      // names 10 and 11 are template-ids S<int> whose template-names are names 8 and 9: declaring S<int> does not declare S
+      {
+         auto* args = lex.make_expr_list(); args->push_back(&lex.int_type());
+         names[10] = &lex.get_template_id(*lex.make_id_expr(*names[8]), *args);
+         names[11] = &lex.get_template_id(*lex.make_id_expr(*names[9]), *args);
+      }
       const ipr::Type* t = &lex.int_type();
       for (int i = 0; i < 16; ++i) {
          plain.push_back(t);
